@@ -27,6 +27,29 @@ use crate::utils::tls::MaybeTlsTcpStream;
 
 //------------ rtr_listener --------------------------------------------------
 
+/// An RTR connection as the listener sets it up, for verification.
+///
+/// Creating the value does what the listener does when it accepts a
+/// connection, dropping it does what happens when the connection closes.
+/// Needs to be created within the context of a Tokio runtime.
+#[cfg(routinator_verif)]
+pub struct VerifConnection(#[allow(dead_code)] RtrStream);
+
+#[cfg(routinator_verif)]
+impl VerifConnection {
+    pub fn new(
+        sock: std::net::TcpStream,
+        addr: SocketAddr,
+        keepalive: Option<Duration>,
+        server_metrics: &RtrServerMetrics,
+    ) -> Result<Self, io::Error> {
+        sock.set_nonblocking(true)?;
+        RtrStream::new(
+            TcpStream::from_std(sock)?, addr, None, keepalive, server_metrics
+        ).map(Self)
+    }
+}
+
 /// Returns a future for all RTR listeners.
 pub fn rtr_listener(
     history: SharedHistory,
@@ -199,6 +222,10 @@ impl RtrStream {
         keepalive: Option<Duration>,
         server_metrics: &RtrServerMetrics,
     ) -> Result<Self, io::Error> {
+        #[cfg(routinator_verif)]
+        if crate::verif::rtr_setup_fails() {
+            return Err(io::Error::other("forced setup failure"))
+        }
         if let Some(duration) = keepalive {
             Self::set_keepalive(&sock, duration)?
         }
